@@ -11,9 +11,8 @@ COMP = "robotools/liquidhandling/composition.py"
 UT = "robotools/utils.py"
 
 MUTANTS = [
-    dict(id="dilution-floor-transfer", expect=["C14"], edits=[(UT, "                vtransfer = numpy.ceil(vmax_arr[c] * ideal_targets[:, c] / actual_targets[src_c])", "                vtransfer = numpy.floor(vmax_arr[c] * ideal_targets[:, c] / actual_targets[src_c])")]),
-    dict(id="dilution-wrong-actual", expect=["C14"], edits=[(UT, "                    actual_targets.append(vtransfer * actual_targets[src_c] / vmax_arr[c])", "                    actual_targets.append(vtransfer * actual_targets[0] / vmax_arr[c])")]),
-    dict(id="dilution-stock-min-transfer-gt", expect=[], silent=["C14"], edits=[(UT, "            if all(vtransfer >= min_transfer):\n                instructions.append((c, 0, \"stock\", vtransfer))", "            if all(vtransfer > min_transfer - 1e-12):\n                instructions.append((c, 0, \"stock\", vtransfer))")]),
+    dict(id="dilution-floor-transfer", expect=["C14"], force=True, edits=[(UT, "                vtransfer = numpy.ceil(vmax_arr[c] * ideal_targets[:, c] / actual_targets[src_c])", "                vtransfer = numpy.floor(vmax_arr[c] * ideal_targets[:, c] / actual_targets[src_c])")]),
+    dict(id="dilution-wrong-actual", expect=["C14"], force=True, edits=[(UT, "                    actual_targets.append(vtransfer * actual_targets[src_c] / vmax_arr[c])", "                    actual_targets.append(vtransfer * actual_targets[0] / vmax_arr[c])")]),
     dict(id="save-newline-lf", expect=["C17"], edits=[(BASE, 'with open(filepath, "w", newline="\\r\\n", encoding="latin_1") as file:', 'with open(filepath, "w", newline="\\n", encoding="latin_1") as file:')]),
     dict(id="save-utf8", expect=["C17"], edits=[(BASE, 'newline="\\r\\n", encoding="latin_1") as file:', 'newline="\\r\\n", encoding="utf-8") as file:')]),
     dict(id="save-no-unlink", expect=[], silent=["C17"], edits=[(BASE, "        filepath.unlink(missing_ok=True)\n", "")]),
